@@ -118,19 +118,24 @@ def generate(seed, tier, index):
         else:
             steps.append({"op": "getprops"})
     net = {"latency": rng.choice(["zero", "lan", "slow"]), "frag": rng.choice(["whole", "fixed:7", "random", "coalesce"]), "hwm": 65536}
-    return {"handlers": handlers, "hier": hier, "read_mode": read_mode, "disabled_vec": disabled_vec, "steps": steps, "net": net, "seed": rng.randrange(1 << 30)}
+    # declared permissions of the writable vectors: command-like properties are write-only, and a client's write to them
+    # reaches the handlers exactly like one to a read-write property
+    perms = {v: rng.choice(["rw", "rw", "wo"]) for v in ("TXT", "NUM", "ANY", "ONE")}
+    return {"handlers": handlers, "hier": hier, "read_mode": read_mode, "disabled_vec": disabled_vec, "steps": steps, "net": net,
+            "perms": perms, "seed": rng.randrange(1 << 30)}
 
 
 def build_driver(scen, trace, sim):
     """Builds a fresh Driver class with the scenario's handlers attached through the real @on decorator."""
+    perms = scen.get("perms") or {}
     grp = properties.Group("MAIN", vectors=dict(
-        txt=properties.TextVector("TXT", enabled=scen["disabled_vec"] != "TXT", elements=dict(
+        txt=properties.TextVector("TXT", perm=perms.get("TXT", "rw"), enabled=scen["disabled_vec"] != "TXT", elements=dict(
             t0=properties.Text("T0", default="init"), t1=properties.Text("T1", default="init"))),
-        num=properties.NumberVector("NUM", enabled=scen["disabled_vec"] != "NUM", elements=dict(
+        num=properties.NumberVector("NUM", perm=perms.get("NUM", "rw"), enabled=scen["disabled_vec"] != "NUM", elements=dict(
             n0=properties.Number("N0", default=0.0, format="%.2f", min=0, max=0), n1=properties.Number("N1", default=0.0, format="%.2f", min=0, max=0))),
-        any=properties.SwitchVector("ANY", rule="AnyOfMany", enabled=scen["disabled_vec"] != "ANY", elements=dict(
+        any=properties.SwitchVector("ANY", rule="AnyOfMany", perm=perms.get("ANY", "rw"), enabled=scen["disabled_vec"] != "ANY", elements=dict(
             a0=properties.Switch("A0"), a1=properties.Switch("A1"), a2=properties.Switch("A2"))),
-        one=properties.SwitchVector("ONE", rule="OneOfMany", default_on="O0", elements=dict(
+        one=properties.SwitchVector("ONE", rule="OneOfMany", default_on="O0", perm=perms.get("ONE", "rw"), elements=dict(
             o0=properties.Switch("O0"), o1=properties.Switch("O1"), o2=properties.Switch("O2"))),
         rd=properties.TextVector("RD", elements=dict(r0=properties.Text("R0", default="stale"))),
         img=properties.BLOBVector("IMG", elements=dict(b0=properties.BLOB("B0"), b1=properties.BLOB("B1"))),
